@@ -1230,6 +1230,23 @@ def rule_spawn_count(ctx, rule, fv, who):
 
 
 
+def rule_threads_default(ctx, rule, adt, new_path=None):
+    """the computer's default worker count is rayon::current_num_threads() itself (>= 1): the CLI leaves the default
+    in place for `-t 0`, and the spawn loops run `0..threads` -- a default of `cores - 1` is 0 on a one-CPU host"""
+    new_path = new_path or adt + "::new"
+    fv = ctx.view(new_path)
+    if fv is None:
+        return
+    lit = struct_literal(fv, adt)
+    t = struct_fields(fv, lit).get("threads") if lit else None
+    short = adt.split("::")[-1]
+    ctx.check(rule, "%s::new:threads_default" % short, t == ("call", "rayon::current_num_threads"),
+              "default worker count = rayon::current_num_threads() (>= 1)",
+              "%s::new initialises `threads` with `%s`: with the default (CLI -t 0) the worker count can be 0 or differ "
+              "from the pool size — no worker takes records and the outputs stay empty/unwritten"
+              % (short, show(t) if t else "<missing>"), line_of(lit) if lit else fv.fn["sp"])
+
+
 AUDITED_PANICS = {
     ("composition::oligo::OligoComputer::vectorise_mmap", "assert"): "the mapped path is only entered with norm (C05.S)",
     ("kmer::numeric_to_kmer", "panic"): "unreachable arm of a match on a two-bit value",
